@@ -56,7 +56,13 @@ const (
 	FUnknown                      // any other status code
 	FUndecodable                  // status OK, body is not a header encoding
 	FPanic                        // status OK, decoding the body panics
+	FValPanic                     // status OK, body decodes to H, H.Validate() panics (H.VPanic)
 )
+
+// isValPanic: the frame carries a header on which Validate panics
+func (f Frame) isValPanic() bool {
+	return f.Kind == FValPanic || (f.Kind == FHdr && f.H != nil && f.H.VPanic)
+}
 
 type Frame struct {
 	Kind FrameKind
@@ -262,6 +268,11 @@ func (f Frame) wire() *p2p_pb.HeaderResponse {
 	case FHdr:
 		b, _ := f.H.MarshalBinary()
 		return &p2p_pb.HeaderResponse{Body: b, StatusCode: p2p_pb.StatusCode_OK}
+	case FValPanic:
+		h := *f.H
+		h.Bad, h.VPanic = false, true
+		b, _ := h.MarshalBinary()
+		return &p2p_pb.HeaderResponse{Body: b, StatusCode: p2p_pb.StatusCode_OK}
 	case FNotFound:
 		return &p2p_pb.HeaderResponse{StatusCode: p2p_pb.StatusCode_NOT_FOUND}
 	case FUnknown:
@@ -362,6 +373,9 @@ func classify(r *p2p_pb.HeaderResponse) Frame {
 			return f
 		}
 		f.Kind, f.H = FHdr, h
+		if h.VPanic {
+			f.Kind = FValPanic
+		}
 	case p2p_pb.StatusCode_NOT_FOUND:
 		f.Kind = FNotFound
 	default:
@@ -442,6 +456,9 @@ func (o Obs) Term(reg *vhdr.Registry) string {
 // ---------------------------------------------------------------- Gallina rendering
 
 func FrameTerm(reg *vhdr.Registry, f Frame) string {
+	if f.isValPanic() {
+		return "FValidatePanic"
+	}
 	switch f.Kind {
 	case FHdr:
 		return "(FHdr " + reg.Term(f.H) + ")"
